@@ -68,13 +68,18 @@ pub fn clear_between(b: &Board, from: usize, to: usize) -> bool {
 /// does the piece standing on `from` attack square `to`?
 pub fn attacks(b: &Board, from: usize, to: usize) -> bool {
     let c = b[from];
-    if c == EMPTY || from == to { return false; }
+    if c == EMPTY { return false; }
+    attacks_as(b, from, to, kind(c), is_white(c))
+}
+
+/// would a piece of kind `k` and colour `white` standing on `from` attack `to`?  (`b[from]` itself is not read)
+pub fn attacks_as(b: &Board, from: usize, to: usize, k: u8, white: bool) -> bool {
+    if from == to { return false; }
     let (dr, dc) = (rank(to) - rank(from), file(to) - file(from));
     let (ar, ac) = (abs(dr), abs(dc));
-    let k = kind(c);
     if k == N { (ar == 1 && ac == 2) || (ar == 2 && ac == 1) }
     else if k == K { ar <= 1 && ac <= 1 }
-    else if k == P { ac == 1 && dr == (if is_white(c) { 1 } else { -1 }) }
+    else if k == P { ac == 1 && dr == (if white { 1 } else { -1 }) }
     else if k == R { (dr == 0 || dc == 0) && clear_between(b, from, to) }
     else if k == B { ar == ac && clear_between(b, from, to) }
     else if k == Q { (dr == 0 || dc == 0 || ar == ac) && clear_between(b, from, to) }
@@ -83,11 +88,17 @@ pub fn attacks(b: &Board, from: usize, to: usize) -> bool {
 
 /// is `sq` attacked by some piece of colour `by_white`?
 pub fn attacked(b: &Board, sq: usize, by_white: bool) -> bool {
+    // nested 8 x 8 so that every loop in the spec has at most 8 iterations (one unwinding bound, 9, fits all)
     let mut r = false;
-    let mut from = 0;
-    while from < 64 {
-        if owned_by(b[from], by_white) && attacks(b, from, sq) { r = true; }
-        from += 1;
+    let mut rk = 0;
+    while rk < 8 {
+        let mut fl = 0;
+        while fl < 8 {
+            let from = rk * 8 + fl;
+            if owned_by(b[from], by_white) && attacks(b, from, sq) { r = true; }
+            fl += 1;
+        }
+        rk += 1;
     }
     r
 }
@@ -95,18 +106,26 @@ pub fn attacked(b: &Board, sq: usize, by_white: bool) -> bool {
 /// square of the (first) king of the given colour, 64 if none
 pub fn king_sq(b: &Board, white: bool) -> usize {
     let mut r = 64;
-    let mut s = 64;
-    while s > 0 {
-        s -= 1;
-        if b[s] == code(K, white) { r = s; }
+    let mut rk = 8;
+    while rk > 0 {
+        rk -= 1;
+        let mut fl = 8;
+        while fl > 0 {
+            fl -= 1;
+            if b[rk * 8 + fl] == code(K, white) { r = rk * 8 + fl; }
+        }
     }
     r
 }
 
 pub fn count(b: &Board, c: u8) -> u32 {
     let mut n = 0;
-    let mut s = 0;
-    while s < 64 { if b[s] == c { n += 1; } s += 1; }
+    let mut rk = 0;
+    while rk < 8 {
+        let mut fl = 0;
+        while fl < 8 { if b[rk * 8 + fl] == c { n += 1; } fl += 1; }
+        rk += 1;
+    }
     n
 }
 
@@ -133,6 +152,42 @@ pub const A8: usize = 56; pub const E8: usize = 60; pub const H8: usize = 63;
 /// (castling does include its own attack conditions, as the rules define castling with them)
 pub fn pseudo(v: &View, m: SMove) -> bool {
     let w = v.white_to_move;
+    pseudo_att(v, m, |s| attacked(&v.board, s, !w))
+}
+
+/// `pseudo` with the attack test of the castling conditions as a parameter (`att(sq)`: is `sq`
+/// attacked by the side NOT to move) -- used where an engine callee's answer stands for it
+pub fn pseudo_att<F: Fn(usize) -> bool>(v: &View, m: SMove, att: F) -> bool {
+    match m {
+        SMove::CastleShort => castle_ok(v, true, att),
+        SMove::CastleLong => castle_ok(v, false, att),
+        _ => pseudo_simple(v, m),
+    }
+}
+
+/// castling conditions: right held, squares between king and rook empty, king's square and the two
+/// squares it crosses not attacked (the b-file square may be attacked)
+pub fn castle_ok<F: Fn(usize) -> bool>(v: &View, short: bool, att: F) -> bool {
+    let w = v.white_to_move;
+    let b = &v.board;
+    if short {
+        let (e, f, g) = if w { (E1, 5, 6) } else { (E8, 61, 62) };
+        v.castle[if w { 0 } else { 2 }] && b[f] == EMPTY && b[g] == EMPTY && !att(e) && !att(f) && !att(g)
+    } else {
+        let (e, d, c, bb) = if w { (E1, 3, 2, 1) } else { (E8, 59, 58, 57) };
+        v.castle[if w { 1 } else { 3 }] && b[d] == EMPTY && b[c] == EMPTY && b[bb] == EMPTY && !att(e) && !att(d) && !att(c)
+    }
+}
+
+/// non-pawn piece of kind `k` (N, B, R, Q, K) of the side to move standing on `from`: is from->to a
+/// geometrically valid move (own piece there is NOT checked: the caller knows which piece it is)
+pub fn piece_move_ok(v: &View, from: usize, to: usize, k: u8) -> bool {
+    from < 64 && to < 64 && from != to && !owned_by(v.board[to], v.white_to_move) && attacks_as(&v.board, from, to, k, v.white_to_move)
+}
+
+/// Normal / Promotion / EnPassant part of `pseudo`
+pub fn pseudo_simple(v: &View, m: SMove) -> bool {
+    let w = v.white_to_move;
     let b = &v.board;
     match m {
         SMove::Normal { from, to } => {
@@ -140,20 +195,7 @@ pub fn pseudo(v: &View, m: SMove) -> bool {
             let c = b[from];
             if !owned_by(c, w) || owned_by(b[to], w) { return false; }
             let k = kind(c);
-            if k == P {
-                let fwd: i8 = if w { 1 } else { -1 };
-                let (dr, dc) = (rank(to) - rank(from), file(to) - file(from));
-                let last: i8 = if w { 7 } else { 0 };
-                if rank(to) == last { return false; } // that is a promotion, not a normal move
-                if dc == 0 && dr == fwd { b[to] == EMPTY }
-                else if dc == 0 && dr == 2 * fwd {
-                    rank(from) == (if w { 1 } else { 6 }) && b[to] == EMPTY && b[sq_of(rank(from) + fwd, file(from))] == EMPTY
-                }
-                else if abs(dc) == 1 && dr == fwd { owned_by(b[to], !w) }
-                else { false }
-            } else {
-                attacks(b, from, to)
-            }
+            if k == P { pawn_normal_ok(v, from, to) } else { attacks_as(b, from, to, k, w) }
         }
         SMove::Promo { from, to, kind: nk } => {
             if from >= 64 || to >= 64 { return false; }
@@ -174,19 +216,24 @@ pub fn pseudo(v: &View, m: SMove) -> bool {
                 && file(to) == v.ep as i8
                 && abs(file(to) - file(from)) == 1
         }
-        SMove::CastleShort => {
-            let (e, f, g) = if w { (E1, 5, 6) } else { (E8, 61, 62) };
-            v.castle[if w { 0 } else { 2 }]
-                && b[f] == EMPTY && b[g] == EMPTY
-                && !attacked(b, e, !w) && !attacked(b, f, !w) && !attacked(b, g, !w)
-        }
-        SMove::CastleLong => {
-            let (e, d, c, bb) = if w { (E1, 3, 2, 1) } else { (E8, 59, 58, 57) };
-            v.castle[if w { 1 } else { 3 }]
-                && b[d] == EMPTY && b[c] == EMPTY && b[bb] == EMPTY
-                && !attacked(b, e, !w) && !attacked(b, d, !w) && !attacked(b, c, !w)
-        }
+        _ => false,
     }
+}
+
+/// pawn of the side to move on `from`: push, double push or capture to `to`, not onto the last rank
+pub fn pawn_normal_ok(v: &View, from: usize, to: usize) -> bool {
+    let w = v.white_to_move;
+    let b = &v.board;
+    let fwd: i8 = if w { 1 } else { -1 };
+    let (dr, dc) = (rank(to) - rank(from), file(to) - file(from));
+    let last: i8 = if w { 7 } else { 0 };
+    if rank(to) == last { return false; } // that is a promotion, not a normal move
+    if dc == 0 && dr == fwd { b[to] == EMPTY }
+    else if dc == 0 && dr == 2 * fwd {
+        rank(from) == (if w { 1 } else { 6 }) && b[to] == EMPTY && b[sq_of(rank(from) + fwd, file(from))] == EMPTY
+    }
+    else if abs(dc) == 1 && dr == fwd { owned_by(b[to], !w) }
+    else { false }
 }
 
 /// the position the rules prescribe after `m` (which is assumed pseudo-legal in `v`)
@@ -316,8 +363,12 @@ pub fn state_bits(castle: &[bool; 4], ep: u8) -> u8 {
 /// the hash the published key file assigns to a position
 pub fn hash_of(v: &View) -> u64 {
     let mut h = 0u64;
-    let mut s = 0;
-    while s < 64 { h ^= key(s, v.board[s]); s += 1; }
+    let mut rk = 0;
+    while rk < 8 {
+        let mut fl = 0;
+        while fl < 8 { h ^= key(rk * 8 + fl, v.board[rk * 8 + fl]); fl += 1; }
+        rk += 1;
+    }
     if !v.white_to_move { h ^= SIDE_KEY; }
     h ^ STATE_KEYS[state_bits(&v.castle, v.ep) as usize]
 }
